@@ -94,7 +94,11 @@ func (s *sched) spawn(i *interpreter, fn value, args []value, pos token.Pos) *go
 	s.hostWG.Add(1)
 	go func() {
 		defer s.hostWG.Done()
-		<-g.wake
+		select {
+		case <-g.wake:
+		case <-s.done:
+			return
+		}
 		if i.dead {
 			return
 		}
